@@ -279,6 +279,36 @@ def misbehaving():
             out.append((name, f"returned {type(r).__name__}"))
         except Exception:  # noqa: BLE001
             out.append((name, "ok"))
+    # wrong type with the right shape: anything that is not the backend's tensor type, even if numpy could consume it
+    class ArrayLike:
+        def __init__(self, shape):
+            self.shape = tuple(shape)
+            self.dtype = np.dtype("float64")
+            self.ndim = len(self.shape)
+
+        def __array__(self, dtype=None, copy=None):
+            return np.zeros(self.shape)
+
+    wrong = [
+        ("wrong-type-memoryview", lambda shape: memoryview(np.zeros(shape))),
+        ("wrong-type-array-like", lambda shape: ArrayLike(shape)),
+        ("wrong-type-tuple", lambda shape: tuple(np.zeros(shape).tolist())),
+        ("wrong-type-int", lambda shape: 0),
+    ]
+    forms = [
+        ("add", lambda f: einx.add("a b, b", x, f)),
+        ("id", lambda f: einx.id("a b, b -> a b, b", x, f)),
+        ("dot", lambda f: einx.dot("a b, b c -> a c", x, f, c=2)),
+        ("sum-of-factory", lambda f: einx.sum("a [b]", f, a=2, b=3)),
+    ]
+    for name, fac_ in wrong:
+        for fname, form in forms:
+            for attempt in ("first", "repeat"):
+                try:
+                    r = form(fac_)
+                    out.append((f"{name}:{fname}:{attempt}", f"returned {type(r).__name__}"))
+                except Exception:  # noqa: BLE001
+                    out.append((f"{name}:{fname}:{attempt}", "ok"))
     calls = []
 
     def fac(shape):
@@ -389,7 +419,7 @@ def monitor_replay(name):
     import os
 
     os.makedirs(os.path.join(runner.REPLAY_DIR, PROP), exist_ok=True)
-    path = os.path.join(runner.REPLAY_DIR, PROP, f"monitor_{name}.py")
+    path = os.path.join(runner.REPLAY_DIR, PROP, f"monitor_{name.replace(':', '_')}.py")
     with open(path, "w") as f:
         f.write(
             "#!/venv/bin/python\nimport sys\nsys.path.insert(0, '/verif')\nsys.path.insert(0, '/repo')\n"
